@@ -466,22 +466,23 @@ fn classify_random(seq: &[SeqReq], script: &[Seg]) -> &'static str {
         bounds.push(off);
     }
     let mut pos = 0;
-    let mut class = "random-benign";
+    let (mut split, mut coalesced) = (false, false);
     for s in script {
         if let Seg::Data(d) = s {
             let (a, b) = (pos, pos + d.len());
             // a segment that covers bytes of two requests
             if bounds.iter().any(|&x| a < x && x < b) {
-                return "coalesced";
+                coalesced = true;
             }
             // a cut inside a head
             if heads.iter().any(|&(h0, h1)| (h0 < a && a < h1) || (h0 < b && b < h1)) {
-                class = "head-split";
+                split = true;
             }
             pos = b;
         }
     }
-    class
+    // a head cut anywhere dominates (nothing about the responses is predictable then)
+    if split { "head-split" } else if coalesced { "coalesced" } else { "random-benign" }
 }
 
 fn c06_check(rep: &mut Report, case: u64, router: &hook::Router, seq: &[SeqReq], script: Vec<Seg>, class: &'static str) {
@@ -528,9 +529,17 @@ fn c06_check(rep: &mut Report, case: u64, router: &hook::Router, seq: &[SeqReq],
     } else {
         format!("responses differ from the canonical delivery: {} vs {} responses", got_resps.as_ref().map(|v| v.len() as i64).unwrap_or(-1), canon_resps.as_ref().map(|v| v.len() as i64).unwrap_or(-1))
     };
-    // attribution: the two known-bad input classes wholesale; everything else is new
+    // attribution: the two known-bad input classes; everything else is new. The defect model of C06-F2 is "bytes of the NEXT request
+    // that arrive with the end of the previous one are lost": the response to the first request of the connection is not affected by it,
+    // so a differing first response under coalescing is not explained by the finding.
+    // (compared on the raw stream: with responses missing, HEAD responses can no longer be delimited reliably)
+    let first_ok = match canon_resps.as_ref().ok().and_then(|c| c.first()) {
+        Some(c0) => { let g = normalise(&got.written); g.len() >= c0.len() && g[..c0.len()] == c0[..] }
+        None => false,
+    };
     let sig = match class {
         "head-split" => "C06/head-split".to_string(),
+        "coalesced" | "straddling" if !first_ok && panicked.is_none() => format!("C06/unexplained:{class}:first-response-differs"),
         "coalesced" | "straddling" => "C06/coalesced".to_string(),
         other => format!("C06/unexplained:{other}:{}", if panicked.is_some() { "panic" } else if stuck { "stuck" } else if leak.is_some() { "leak" } else { "differs" }),
     };
